@@ -642,6 +642,7 @@ func run(c *hk.Ctx) {
 	joinGaps := startGaps(c) // the time-gapped histories run beside everything else
 	defer joinGaps()
 	runSizes(c)
+	runUnserializable(c)
 	// fixed histories
 	fixedTwoSessions(c, mk["streamable"](0), 0)
 	fixedTwoSessions(c, mk["legacy"](0), 0)
